@@ -267,6 +267,29 @@ func ruleP08IoVerbatim(p *Prog, r *Report) {
 			r.check(why == "", rule, fmt.Sprintf("%s:contents#%d", fnName(f), idx), p.instrPos(st), "the contents kept are the reader's result as it came", "the file contents handed on to the parser are not what the reader returned ("+why+"): line numbers, error positions and the lines a mutating command writes back refer to an altered copy of the text")
 		})
 	}
+	// "nothing was piped in" means the empty text, not a text the retriever finds uninteresting:
+	// a text of blank lines is a valid file with no records (and `klog json` says so)
+	if sr := p.method("klog/app", "StdinRetriever", "Retrieve"); r.anchorFn(rule, sr, "StdinRetriever.Retrieve") {
+		nPass := 0
+		for i, ret := range returnsOf(sr) {
+			if len(ret.Results) != 2 || !isNilConst(retResult(ret, 0)) || !isNilConst(retResult(ret, 1)) {
+				continue
+			}
+			// a "pass on to the next retriever" return that depends on the text read
+			for _, g := range guardsOf(ret.Block()) {
+				x, isEmpty, isG := emptyGuard(g)
+				if !isG || !isStringType(x.Type()) {
+					continue
+				}
+				nPass++
+				why := rawTextSource(x, 0)
+				r.check(isEmpty && why == "", rule, fmt.Sprintf("StdinRetriever:no-input#%d", i), p.instrPos(ret), "stdin counts as absent only when the text read is empty", "the stdin retriever passes on to the next source when a derived text is empty ("+why+"), not when the text read is: blank input, a valid file without records, is reported as 'no input' (or replaced by the default bookmark's file)")
+			}
+		}
+		if nPass == 0 {
+			r.undecided(rule, "StdinRetriever:no-input", p.pos(sr.Pos()), "the 'nothing piped in' case of the stdin retriever was not found")
+		}
+	}
 	if nStores < 3 {
 		r.undecided(rule, "contents:floor", "-", "expected the three constructions of fileWithContents (file retriever, stdin retriever, NewFileWithContents), found %d", nStores)
 	}
@@ -674,12 +697,51 @@ func ruleP06PrintWidth(p *Prog, r *Report) {
 			}
 		}
 	})
-	if len(updates) != 1 {
+	// the same with a plain local variable (no closure captures it): the maximum is a phi of the
+	// loop; the update is the edge on which a length flows in
+	var phiMax map[*ssa.Phi]bool
+	var phiGuards []Guard
+	var phiAt ssa.Instruction
+	if len(updates) == 0 {
+		n := 0
+		eachInstr(f, func(in ssa.Instruction) {
+			ph, ok := in.(*ssa.Phi)
+			if !ok || !isIntType(ph.Type()) {
+				return
+			}
+			for i, e := range ph.Edges {
+				if !isLen(e) {
+					continue
+				}
+				cyc, _ := phiCycle(ph)
+				if len(cyc) == 0 {
+					continue
+				}
+				pb := ph.Block().Preds[i]
+				n++
+				phiMax = cyc
+				phiGuards = append(append([]Guard{}, guardsOf(pb)...), edgeGuard(pb, ph.Block())...)
+				phiAt = ph
+			}
+		})
+		if n != 1 {
+			phiMax = nil
+		}
+	}
+	if len(updates) != 1 && phiMax == nil {
 		r.undecided(rule, "max-update", p.pos(f.Pos()), "expected one running-maximum update (max = len(...)) in printWithDurations, found %d", len(updates))
 		return
 	}
-	st := updates[0]
-	cell := st.Addr.(*ssa.Alloc)
+	var st ssa.Instruction
+	var cell *ssa.Alloc
+	var updGuards []Guard
+	if phiMax != nil {
+		st, updGuards = phiAt, phiGuards
+	} else {
+		st = updates[0]
+		cell = updates[0].Addr.(*ssa.Alloc)
+		updGuards = guardsOf(updates[0].Block())
+	}
 	// the value appended to the prefix list in this loop
 	var appended []ssa.Value
 	eachInstr(f, func(in ssa.Instruction) {
@@ -699,11 +761,14 @@ func ruleP06PrintWidth(p *Prog, r *Report) {
 	})
 	bad := ""
 	sawCmp := false
-	for _, g := range append(guardsOf(st.Block()), Guard{}) {
+	for _, g := range append(updGuards, Guard{}) {
 		if g.Cond == nil {
 			continue
 		}
 		if isLoopGuard(g) {
+			if phiMax != nil {
+				continue
+			}
 			break
 		}
 		if x, isNil, ok := nilFact(g); ok && !isNil {
@@ -722,6 +787,10 @@ func ruleP06PrintWidth(p *Prog, r *Report) {
 		if bo, ok := g.Cond.(*ssa.BinOp); ok && (bo.Op == token.GTR || bo.Op == token.LSS || bo.Op == token.GEQ || bo.Op == token.LEQ) {
 			l, rr := strip(bo.X), strip(bo.Y)
 			isCell := func(v ssa.Value) bool {
+				if phiMax != nil {
+					ph, isPhi := v.(*ssa.Phi)
+					return isPhi && phiMax[ph]
+				}
 				u, ok := v.(*ssa.UnOp)
 				return ok && u.Op == token.MUL && u.X == ssa.Value(cell)
 			}
@@ -932,6 +1001,29 @@ func runeSetOfPredicate(f *ssa.Function) (string, bool) {
 	}
 	sort.Strings(runes)
 	return "{" + strings.Join(dedup(runes), ",") + "}", true
+}
+
+// elemIndexOf: v is (a field of) xs[i] -> i; nil when it is not an indexed element.
+func elemIndexOf(v ssa.Value) ssa.Value {
+	v = strip(v)
+	for depth := 0; depth < 4; depth++ {
+		u, ok := v.(*ssa.UnOp)
+		if !ok || u.Op != token.MUL {
+			return nil
+		}
+		switch a := u.X.(type) {
+		case *ssa.IndexAddr:
+			return a.Index
+		case *ssa.FieldAddr:
+			v = strip(a.X)
+			if ia, isIA := v.(*ssa.IndexAddr); isIA {
+				return ia.Index
+			}
+		default:
+			return nil
+		}
+	}
+	return nil
 }
 
 func keysOf(m map[int64]bool) []int64 {
@@ -1343,10 +1435,18 @@ func ruleP14SortKey(p *Prog, r *Report) {
 		for _, site := range p.sortSitesIn(sl) {
 			for _, ret := range returnsOf(site.less) {
 				// (<= is as good as <: the keys are unique, one row per name/value pair of the map)
-				if bo, ok := strip(retResult(ret, 0)).(*ssa.BinOp); ok && (bo.Op == token.LSS || bo.Op == token.LEQ) {
-					_, f1 := fieldLoad(bo.X)
-					_, f2 := fieldLoad(bo.Y)
-					if f1 == "keyForSort" && f2 == "keyForSort" {
+				if bo, ok := normCmp(retResult(ret, 0)); ok {
+					x, y, op := bo.X, bo.Y, bo.Op
+					if op == token.GTR || op == token.GEQ {
+						x, y = y, x // b > a is a < b
+						op = map[token.Token]token.Token{token.GTR: token.LSS, token.GEQ: token.LEQ}[op]
+					}
+					_, f1 := fieldLoad(x)
+					_, f2 := fieldLoad(y)
+					// ascending: the element at i comes first
+					i1, i2 := elemIndexOf(x), elemIndexOf(y)
+					asc := i1 == nil || i2 == nil || (strip(i1) == ssa.Value(site.i) && strip(i2) == ssa.Value(site.j))
+					if (op == token.LSS || op == token.LEQ) && f1 == "keyForSort" && f2 == "keyForSort" && asc {
 						okc = true
 					}
 				}
@@ -1840,15 +1940,11 @@ func ruleP10OneError(p *Prog, r *Report) {
 	if !r.anchorFn(rule, parse, "parser.parse") {
 		return
 	}
-	// the errs variable: a cell of type []txt.Error
-	var cell *ssa.Alloc
-	eachInstr(parse, func(in ssa.Instruction) {
-		if a, ok := in.(*ssa.Alloc); ok && isSliceOf(derefType(a.Type()), "Error") && cell == nil {
-			cell = a
-		}
-	})
-	if cell == nil {
-		r.undecided(rule, "errs", p.pos(parse.Pos()), "the error list of parse is not a captured variable any more; re-confirm the rule")
+	// the error list: a captured variable, or (when no closure captures it) the web of appends
+	// that ends in the value parse returns
+	acc := errsAccOf(parse)
+	if acc == nil {
+		r.undecided(rule, "errs", p.pos(parse.Pos()), "the error list of parse was not found; re-confirm the rule")
 		return
 	}
 	// the lines still to be read: a cell of type []txt.Line
@@ -1858,16 +1954,25 @@ func ruleP10OneError(p *Prog, r *Report) {
 			linesCell = a
 		}
 	})
-	var sites []*ssa.Store
-	for _, ref := range *cell.Referrers() {
-		if st, ok := ref.(*ssa.Store); ok && st.Addr == ssa.Value(cell) {
-			if c, _ := callOf(strip(st.Val)); c != nil {
-				if b, isB := c.Common().Value.(*ssa.Builtin); isB && b.Name() == "append" && inLoopBlock(st.Block()) {
-					sites = append(sites, st)
+	var sites []ssa.Instruction
+	eachInstr(parse, func(in ssa.Instruction) {
+		c, ok := in.(*ssa.Call)
+		if !ok || !acc.appendsTo(c) {
+			return
+		}
+		// (for a captured variable the append takes effect at the store)
+		var at ssa.Instruction = c
+		if acc.cell != nil {
+			for _, ref := range *c.Referrers() {
+				if st, isSt := ref.(*ssa.Store); isSt && st.Addr == ssa.Value(acc.cell) {
+					at = st
 				}
 			}
 		}
-	}
+		if inLoopBlock(at.Block()) {
+			sites = append(sites, at)
+		}
+	})
 	if len(sites) < 3 {
 		r.undecided(rule, "sites", p.pos(parse.Pos()), "expected at least three error appends inside the loops of parse, found %d", len(sites))
 		return
@@ -2807,6 +2912,7 @@ func ruleP10Span(p *Prog, r *Report) {
 	}
 	n := 0
 	ord := map[string]int{}
+	sgSpan := newSuperGraph(parse)
 	for _, f := range fam {
 		eachInstr(f, func(in ssa.Instruction) {
 			c, ok := in.(*ssa.Call)
@@ -2814,6 +2920,9 @@ func ruleP10Span(p *Prog, r *Report) {
 				return
 			}
 			n++
+			if k := len(sgSpan.sites[f]); k > 1 {
+				n += k - 1 // one creation site in a local function that serves k places
+			}
 			code := "?"
 			if rc, _ := callOf(c.Call.Args[0]); rc != nil && staticCallee(rc) != nil {
 				code = fnBase(staticCallee(rc))
@@ -2821,6 +2930,18 @@ func ruleP10Span(p *Prog, r *Report) {
 			ord[fnName(f)+code]++
 			key := fmt.Sprintf("%s:%s#%d", fnName(f), code, ord[fnName(f)+code])
 			pos, length := polyX(c.Call.Args[3]), polyX(c.Call.Args[4])
+			// a length is measured — one token's or line's own length, or the distance between two
+			// reading positions — not added up from the lengths of several tokens: the sum assumes
+			// how the tokens are separated (`15:00-14:00` against `15:00 - 14:00`)
+			nTok := 0
+			for k, coef := range length.Terms {
+				if coef > 0 && strings.HasPrefix(k, "len(field:") && strings.HasSuffix(k, ".Chars)") {
+					nTok += int(coef)
+				}
+			}
+			if nTok > 1 {
+				r.bad(rule, key+":measured", p.instrPos(c), "the length of the error is added up from the lengths of %d tokens (%s): it is right only for one way of separating them, and otherwise the marked span ends before or beyond the text meant — possibly beyond the end of the line", nTok, length.String())
+			}
 			whole := ""
 			for k, coef := range length.Terms {
 				if coef == 1 && strings.HasPrefix(k, "len(field:") && strings.HasSuffix(k, ".Chars)") {
@@ -2850,13 +2971,61 @@ func ruleP10Span(p *Prog, r *Report) {
 // len(l.Text)+len(l.LineEnding) — with nothing estimated (a line ending is one OR two bytes).
 func ruleP07TailBytes(p *Prog, r *Report) {
 	const rule = "P07-tail-bytes"
-	f := p.fn("klog/parser/engine", "countBytes")
-	if !r.anchorFn(rule, f, "engine.countBytes") {
+	// the amount: whatever is subtracted from the bytes consumed where the tail text is cut off —
+	// a helper's result or a sum computed on the spot
+	parse, async, okFns := p.parallelFns(r, rule)
+	if !okFns {
 		return
 	}
-	for i, ret := range returnsOf(f) {
+	var work *ssa.Function
+	for _, c := range callsTo(parse, async) {
+		work = funcLiteral(c.Common().Args[len(c.Common().Args)-1])
+	}
+	if work == nil {
+		r.undecided(rule, "worker", p.pos(parse.Pos()), "the per-batch worker of the parallel engine was not found")
+		return
+	}
+	var amounts []ssa.Value
+	var ats []ssa.Instruction
+	for _, g := range withAnons(work) {
+		eachInstr(g, func(in ssa.Instruction) {
+			st, ok := in.(*ssa.Store)
+			if !ok {
+				return
+			}
+			fa, ok := st.Addr.(*ssa.FieldAddr)
+			if !ok || fieldName(fa) != "tailText" {
+				return
+			}
+			sl, ok := strip(st.Val).(*ssa.Slice)
+			if !ok || sl.Low == nil {
+				return
+			}
+			if bo, isB := strip(sl.Low).(*ssa.BinOp); isB && bo.Op == token.SUB {
+				amounts = append(amounts, bo.Y)
+				ats = append(ats, st)
+			}
+		})
+	}
+	if len(amounts) == 0 {
+		r.undecided(rule, "amount", p.pos(work.Pos()), "the tail text is not cut at (bytes consumed - size of the last block)")
+		return
+	}
+	for i, amt := range amounts {
 		key := fmt.Sprintf("return#%d", i)
-		phis, ins := phiCycle(retResult(ret, 0))
+		v := strip(amt)
+		retPos := ats[i]
+		// a call of a module function that sums: look at what it returns
+		if hc, isCall := v.(*ssa.Call); isCall {
+			if g := rawStaticCallee(hc); g != nil && p.inMod(g) && len(g.Blocks) > 0 {
+				if rets := plainReturnsOf(g); len(rets) == 1 && len(rets[0].Results) == 1 {
+					v = rets[0].Results[0]
+					retPos = rets[0]
+				}
+			}
+		}
+		ret := retPos
+		phis, ins := phiCycle(v)
 		ok := len(phis) > 0
 		why := ""
 		for _, in := range ins {
